@@ -197,7 +197,7 @@ def generate(rng, profile):
         elif op == "mark":
             script.append({"op": "mark", "c": None if rng.random() < 0.5 else rng.randrange(n)})
         elif op == "value":
-            script.append({"op": "value"})
+            script.append({"op": "value", "wf": True} if rng.random() < 0.4 else {"op": "value"})
         elif op == "advance":
             script.append({"op": "advance", "dt": rng.choice([1, 3600, 86400, 30 * 86400])})
             if rng.random() < 0.5:
